@@ -258,7 +258,44 @@ def c14(chk, thorough):
     chk.floor('S.post-invariant', 60)
 
 
+def c11(chk, thorough):
+    from . import contractmode
+    chk.explanation = (
+        'Decides the all-shapes memory/extent clause of C11: every dense kernel of matrix.c / vector.c / tensor.c (products, outer '
+        'product, transpose, trace, norms, covariance, column/row statistics, sorting, tensor contractions) is analysed by symbolic '
+        'extent abstract interpretation under its frozen conformability contract (lsv/contracts.json, each entry confirmed by reading) '
+        'and its own guards: every subscript is in range for every admitted shape, including empty and non-square ones, and every '
+        'internal call establishes its callee\'s contract. Index-role slips (m[j][i], a row bound on a column loop, a missing +1) are '
+        'refuted by a small non-square witness. NOT decided: the numeric value of any kernel, algebraic laws, ordering by key, coverage '
+        'of the inner dimension by the unrolled loop plus tail.')
+    chk.assumptions = ['contracts of lsv/contracts.json', 'distinct parameters do not alias', 'LP64']
+    prog = load_program(chk, ['vector.c', 'list.c', 'matrix.c', 'tensor.c', 'memwrapper.c', 'numeric.c'])
+    contractmode.run(chk, prog, contractmode.C11_FUNCS, dom=4 if thorough else 3)
+    if chk.extra.get('kernels', 0) < 45:
+        chk.broke('only %d kernels analysed, floor 45' % chk.extra.get('kernels', 0))
+    chk.floor('K.bounds', 300)
+
+
+def c12(chk, thorough):
+    from . import contractmode, guards
+    chk.explanation = (
+        'Decides the pivot-guard and buffer-extent clauses of C12: (E7c) in the elimination routines every division by a diagonal '
+        'element of the working matrix is dominated by a test of that element or preceded, within the same pivot iteration, by a store '
+        'into the pivot row (any row-exchange scheme) -- "divides by whatever is on the diagonal" fails; (E1) in the LAPACK wrappers '
+        '(MatrixLUInversion, SVDlapack + conv2matrix, EVectEval) and the solvers every raw-buffer and matrix subscript is within the '
+        'allocated extent for square and rectangular shapes under the recorded contracts. NOT decided: M M^-1 = I, Penrose conditions, '
+        'A v = lambda v, reconstruction (numeric).')
+    chk.assumptions = ['contracts of lsv/contracts.json', 'LAPACK routines write only within the documented sizes of their arguments']
+    prog = load_program(chk, ['vector.c', 'list.c', 'matrix.c', 'tensor.c', 'memwrapper.c', 'numeric.c', 'algebra.c'])
+    contractmode.run(chk, prog, contractmode.C12_FUNCS, dom=4 if thorough else 3)
+    guards.pivot_guard(chk, prog, {'matrix.c': ['MatrixInversion'], 'algebra.c': ['SolveLSE']})
+    chk.floor('K.bounds', 100)
+    chk.floor('G.pivot', 2)
+
+
 CHECKS = {
+    'C11': c11,
+    'C12': c12,
     'C14': c14,
     'C19': c19,
     'C10': c10,
